@@ -60,3 +60,201 @@ func specIsLast(n *Node) bool {
 //@   invariant heap: (forall q *Node :: {q.children} q.children == old(q.children)) && (forall q *Node :: {q.parent} q.parent == old(q.parent))
 //@   invariant nomatch: forall k int :: {old(s.nodes.view)[k]} size - $i <= k && k < size ==> k + 2 != current.hierarchy
 
+
+// ---------------------------------------------------------------------------------------------
+// The drawing rule (C01) as executable specification functions. They read only name, hierarchy,
+// parent and children — never index and never the cached branch — so every result stated through
+// them is a function of the tree's shape and names alone (C13).
+
+// specConn: the connector of n, chosen by whether n is its parent's last child.
+func specConn(last, mid branchFormat, n *Node) string {
+	if specIsLast(n) {
+		return last.directly
+	}
+	return mid.directly
+}
+
+// specCont: the continuation string contributed by ancestor n.
+func specCont(last, mid branchFormat, n *Node) string {
+	if specIsLast(n) {
+		return last.indirectly
+	}
+	return mid.indirectly
+}
+
+// specPrefix: for x and each of its ancestors strictly below the root, taken top-down, the continuation string.
+//@ spec gtree.specPrefix
+//@   decreases x.hierarchy
+func specPrefix(last, mid branchFormat, x *Node) string {
+	if x == nil || x.hierarchy <= 1 || x.parent == nil || x.parent.hierarchy >= x.hierarchy {
+		return ""
+	}
+	return specPrefix(last, mid, x.parent) + specCont(last, mid, x)
+}
+
+// specBranch: everything on n's line before the space and the name.
+func specBranch(last, mid branchFormat, n *Node) string {
+	if n.hierarchy <= 1 || n.parent == nil {
+		return ""
+	}
+	return specPrefix(last, mid, n.parent) + specConn(last, mid, n)
+}
+
+// specLine: the output line of n.
+func specLine(last, mid branchFormat, n *Node) string {
+	if n.hierarchy <= 1 {
+		return n.name + "\n"
+	}
+	return specBranch(last, mid, n) + " " + n.name + "\n"
+}
+
+// specRender: the lines of the subtree of n in depth-first pre-order.
+func specRender(last, mid branchFormat, n *Node) string {
+	return specLine(last, mid, n) + specRenderKids(last, mid, n, len(n.children))
+}
+
+// specRenderKids: the rendering of the first i children of n, in order.
+func specRenderKids(last, mid branchFormat, n *Node, i int) string {
+	if i <= 0 || i > len(n.children) {
+		return ""
+	}
+	return specRenderKids(last, mid, n, i-1) + specRender(last, mid, n.children[i-1])
+}
+
+// validElem: s is a single valid path element.
+func validElem(s string) bool {
+	return s != "" && s != "." && s != ".." && noSlashFrom(s, 0)
+}
+
+func noSlashFrom(s string, i int) bool {
+	if i < 0 || i >= len(s) {
+		return true
+	}
+	if s[i] == '/' {
+		return false
+	}
+	return noSlashFrom(s, i+1)
+}
+
+// specValidUp: the names of n and of all its ancestors are single valid path elements.
+func specValidUp(n *Node) bool {
+	if !validElem(n.name) {
+		return false
+	}
+	if n.hierarchy <= 1 || n.parent == nil || n.parent.hierarchy >= n.hierarchy {
+		return true
+	}
+	return specValidUp(n.parent)
+}
+
+// specPath: the names from the root down to n joined by "/".
+func specPath(n *Node) string {
+	if n.hierarchy <= 1 || n.parent == nil || n.parent.hierarchy >= n.hierarchy {
+		return n.name
+	}
+	return specPath(n.parent) + "/" + n.name
+}
+
+// ---------------------------------------------------------------------------------------------
+// simple_tree_grower.go
+
+//@ global
+//@   invariant parentUp: forall n *Node :: {n.parent} n.parent != nil ==> n.hierarchy == n.parent.hierarchy + 1 && (n.parent.hierarchy == 1 || n.parent.parent != nil)
+
+//@ func gtree.defaultGrowerSimple.assembleBranch
+//@   requires nn: dg != nil && current != nil
+//@   requires attached: current.hierarchy == 1 || current.parent != nil
+//@   modifies current.brnch.value, current.brnch.path
+//@   ensures branch [C01,C03,C05,C13]: current.brnch.value == specBranch(dg.lastNodeFormat, dg.intermedialNodeFormat, current)
+//@   ensures noval [C01]: !dg.enabledValidation ==> result == nil
+//@ loop gtree.defaultGrowerSimple.assembleBranch#1
+//@   invariant up: tmpParent != nil && tmpParent.hierarchy < current.hierarchy && (tmpParent.hierarchy == 1 || tmpParent.parent != nil)
+//@   invariant pre: specPrefix(dg.lastNodeFormat, dg.intermedialNodeFormat, tmpParent) ++ current.brnch.value == specPrefix(dg.lastNodeFormat, dg.intermedialNodeFormat, current.parent) ++ specConn(dg.lastNodeFormat, dg.intermedialNodeFormat, current)
+//@   decreases tmpParent.hierarchy
+
+//@ func gtree.Node.validatePath
+//@   requires nn: n != nil
+//@   ensures slash [C07]: result == nil ==> noSlashFrom(n.name, 0)
+//@   ensures valid [C07]: result == nil ==> (n.hierarchy == 1 ? fsValid(n.name) : fsValid(n.brnch.path))
+
+// specDesc: n lies in the subtree of r (n == r, or n's parent does).
+func specDesc(r, n *Node) bool {
+	if n == r {
+		return true
+	}
+	if n == nil || n.parent == nil || n.parent.hierarchy >= n.hierarchy {
+		return false
+	}
+	return specDesc(r, n.parent)
+}
+
+// Lemmas about specDesc: ghost functions, proved by the verifier by induction (the recursive
+// call is the induction hypothesis) and imported elsewhere with "use lemma".
+
+//@ lemma gtree.lemmaDescLevel
+//@   requires d: specDesc(r, n)
+//@   ensures lvl: n != nil && r != nil ==> n.hierarchy >= r.hierarchy
+//@   trigger specDesc(r, n)
+//@   decreases n.hierarchy
+func lemmaDescLevel(r, n *Node) {
+	if n != r && n != nil {
+		lemmaDescLevel(r, n.parent)
+	}
+}
+
+//@ lemma gtree.lemmaDescThroughChild
+//@   requires d: specDesc(r, n) && n != r && r != nil
+//@   ensures w: exists j int :: {r.children[j]} 0 <= j && j < len(r.children) && specDesc(r.children[j], n)
+//@   trigger specDesc(r, n)
+//@   decreases n.hierarchy
+func lemmaDescThroughChild(r, n *Node) {
+	if n.parent != r {
+		lemmaDescThroughChild(r, n.parent)
+	}
+}
+
+//@ lemma gtree.lemmaDescUp
+//@   requires d: specDesc(c, n) && c != nil && c.parent != nil
+//@   ensures up: specDesc(c.parent, n)
+//@   trigger specDesc(c, n)
+//@   decreases n.hierarchy
+func lemmaDescUp(c, n *Node) {
+	if n != c {
+		lemmaDescUp(c, n.parent)
+	}
+}
+
+//@ lemma gtree.lemmaDescUnique
+//@   requires d: specDesc(a, n) && specDesc(b, n) && a != nil && b != nil && a.hierarchy == b.hierarchy
+//@   ensures same: a == b
+//@   trigger specDesc(a, n), specDesc(b, n)
+//@   use lemma lemmaDescLevel
+//@   decreases n.hierarchy
+func lemmaDescUnique(a, b, n *Node) {
+	if n != a && n != b {
+		lemmaDescUnique(a, b, n.parent)
+	}
+}
+
+//@ func gtree.defaultGrowerSimple.assemble
+//@   requires nn: dg != nil && current != nil
+//@   requires attached: current.hierarchy == 1 || current.parent != nil
+//@   modifies Node.brnch.value, Node.brnch.path
+//@   use lemma lemmaDescLevel, lemmaDescThroughChild, lemmaDescUp, lemmaDescUnique
+//@   ensures subtree [C01,C03,C05]: result == nil ==> (forall n *Node :: {specDesc(current, n)} specDesc(current, n) ==> n.brnch.value == specBranch(dg.lastNodeFormat, dg.intermedialNodeFormat, n))
+//@   ensures stable: forall n *Node :: {n.brnch.value} !specDesc(current, n) ==> n.brnch.value == old(n.brnch.value)
+//@   ensures noval [C01]: !dg.enabledValidation ==> result == nil
+//@ loop gtree.defaultGrowerSimple.assemble#1
+//@   invariant self: current.brnch.value == specBranch(dg.lastNodeFormat, dg.intermedialNodeFormat, current)
+//@   invariant done: forall j int, n *Node :: {specDesc(current.children[j], n)} 0 <= j && j < $i && specDesc(current.children[j], n) ==> n.brnch.value == specBranch(dg.lastNodeFormat, dg.intermedialNodeFormat, n)
+//@   invariant stable: forall n *Node :: {n.brnch.value} !specDesc(current, n) ==> n.brnch.value == old(n.brnch.value)
+
+//@ func gtree.defaultGrowerSimple.grow
+//@   requires nn: dg != nil
+//@   requires roots: forall k int :: {roots[k]} 0 <= k && k < len(roots) ==> roots[k] != nil && roots[k].hierarchy == 1
+//@   modifies Node.brnch.value, Node.brnch.path
+//@   use lemma lemmaDescLevel, lemmaDescUnique
+//@   ensures grown [C01,C03,C05]: result == nil ==> (forall k int, n *Node :: {specDesc(roots[k], n)} 0 <= k && k < len(roots) && specDesc(roots[k], n) ==> n.brnch.value == specBranch(dg.lastNodeFormat, dg.intermedialNodeFormat, n))
+//@   ensures noval [C01]: !dg.enabledValidation ==> result == nil
+//@ loop gtree.defaultGrowerSimple.grow#1
+//@   invariant done: forall k int, n *Node :: {specDesc(roots[k], n)} 0 <= k && k < $i && specDesc(roots[k], n) ==> n.brnch.value == specBranch(dg.lastNodeFormat, dg.intermedialNodeFormat, n)
